@@ -51,4 +51,16 @@ MUTANTS = [
     dict(name='c06-replace-not-replacing', file=M, old="                        current_values[~np.isfinite(current_values)] = 0.0\n                        continue", new="                        continue", checks=['C06']),
     dict(name='c06-preexisting-check-any-policy', file=M, old="        if errors == 'raise' and np.any(~np.isfinite(current_values)):", new="        if np.any(~np.isfinite(current_values)):", checks=['C06']),
     dict(name='c06-solve-swallows-exception', file=I, old="            solved[i] = self.solve_t(\n                t,\n                min_iter=min_iter,", new="            solved[i] = self.solve_t(\n                t,\n                min_iter=min(min_iter, 1),", checks=['C05', 'C02']),
+    # ---- C04 ----
+    dict(name='c04-feasibility-check-removed', file=M, old='if not self.lags <= t_position < len(self.span) - self.leads:', new='if False:', checks=['C04']),
+    dict(name='c04-lags-too-short', file=P, old='lags = abs(min(s.lags for s in non_indexed_symbols))', new='lags = max(abs(min(s.lags for s in non_indexed_symbols)) - 1, 0)', checks=['C04', 'C03']),
+    dict(name='c04-offset-lower-bound-check-removed', file=M, old='            if t_check + offset < 0:', new='            if False:', checks=['C04', 'C02']),
+    dict(name='c04-status-written-before-nan-guard', file=M, old="        status = SolutionStatus.UNSOLVED.value\n        current_values = get_check_values()\n\n        # Raise an exception if there are pre-existing", new="        status = SolutionStatus.UNSOLVED.value\n        self.status[t] = status\n        self.iterations[t] = 0\n        current_values = get_check_values()\n\n        # Raise an exception if there are pre-existing", checks=['C04', 'C02']),
+    dict(name='c04-solve-t-resets-next-period-status', file=M, old="        self.status[t] = status\n        self.iterations[t] = iteration\n\n        if status == SolutionStatus.FAILED.value and failures", new="        self.status[t] = status\n        self.iterations[t] = iteration\n        if t + 1 < len(self.span):\n            self.iterations[t + 1] = -1\n            self.status[t + 1] = SolutionStatus.UNSOLVED.value\n\n        if status == SolutionStatus.FAILED.value and failures", checks=['C04', 'C05']),
+    # ---- C05 ----
+    dict(name='c05-range-end-plus-one-dropped', file=I, old="self._locate_period_in_span(start), self._locate_period_in_span(end) + 1\n        )\n\n        return PeriodIter", new="self._locate_period_in_span(start), self._locate_period_in_span(end)\n        )\n\n        return PeriodIter", checks=['C05', 'C03']),
+    dict(name='c05-labels-sliced-wrong', file=I, old='return PeriodIter(indexes, self.span[indexes.start : indexes.stop])', new='return PeriodIter(indexes, self.span[indexes.start + 1 : indexes.stop + 1] if indexes.stop < len(self.span) else self.span[indexes.start : indexes.stop])', checks=['C05']),
+    dict(name='c05-end-validation-dropped', file=I, old="        if end is not None and not isinstance(self._locate_period_in_span(end), int):\n            raise KeyError(end)\n\n        period_iter", new="        period_iter", checks=['C05']),
+    dict(name='c05-offset-not-forwarded', file=I, old="                tol=tol,\n                offset=offset,\n                failures=failures,\n                errors=errors,\n                catch_first_error=catch_first_error,\n                **kwargs,\n            )\n\n        return labels, indexes, solved", new="                tol=tol,\n                failures=failures,\n                errors=errors,\n                catch_first_error=catch_first_error,\n                **kwargs,\n            )\n\n        return labels, indexes, solved", checks=['C05']),
+    dict(name='c05-locate-valueerror-leaks', file=C, old="                    try:\n                        return index_function(period)\n                    except Exception as e:", new="                    try:\n                        return index_function(period)\n                    except KeyError as e:", checks=['C05', 'C10']),
 ]
